@@ -1254,6 +1254,33 @@ def oracle(spec):
     except Exception:  # noqa: BLE001
         return fails
     _roundtrip_checks(e3, fails, "after-earlier-serialisation:")
+    if fails:
+        return fails
+    # … and edited in place after a serialisation (no add_* call involved): the next serialisation shows the edits
+    try:
+        before = json.loads(e3.to_json())
+    except Exception:  # noqa: BLE001  a part outside the serialisable fragment (judged by _roundtrip_checks)
+        return fails
+    try:
+        want = copy.deepcopy(before)
+        e3.version = e3.version.bump_minor()
+        want["version"] = str(e3.version)
+        e3.runtime_reqs.add("verif.late")
+        want["runtime_reqs"] = sorted(set(want.get("runtime_reqs", [])) | {"verif.late"})
+        for name, od in list(e3.operations.items())[:2]:
+            od.description = od.description + " (edited)"
+            od.misc = {**od.misc, "verif.late": [1, None]}
+            want["operations"][name]["description"] += " (edited)"
+            want["operations"][name]["misc"] = {**want["operations"][name].get("misc", {}), "verif.late": [1, None]}
+        for name, td in list(e3.types.items())[:1]:
+            td.description = td.description + " (edited)"
+            want["types"][name]["description"] += " (edited)"
+        got = json.loads(e3.to_json())
+    except Exception as ex:  # noqa: BLE001
+        fails.append(Failure("Extension.to_json", "raises-after-in-place-edit", repr(ex)[:200]))
+        return fails
+    if canon_doc(got) != canon_doc(want):
+        fails.append(Failure("Extension.to_json", "stale-after-in-place-edit", "version / requirements / descriptions / misc edited after a serialisation"))
     return fails
 
 
